@@ -2,10 +2,12 @@ package main
 
 import (
 	"encoding/hex"
+	"fmt"
 	"math/big"
 	"net/http"
 	"strconv"
 	"strings"
+	"syscall"
 
 	"github.com/labstack/echo/v4"
 )
@@ -88,4 +90,22 @@ func recycledContext(e *echo.Echo, req *http.Request, w http.ResponseWriter) ech
 	}
 	c.Reset(req, w)
 	return c
+}
+
+// reservedDeadAddr returns the address of a TCP port that refuses connections and CANNOT be taken by anybody else while
+// the harness runs: a socket bound to it but never listening (a closed listener's port can be handed to another process
+// on a busy machine, which then answers in the dead target's place).
+func reservedDeadAddr() string {
+	fd, err := syscall.Socket(syscall.AF_INET, syscall.SOCK_STREAM, 0)
+	if err != nil {
+		panic(err)
+	}
+	if err := syscall.Bind(fd, &syscall.SockaddrInet4{Port: 0, Addr: [4]byte{127, 0, 0, 1}}); err != nil {
+		panic(err)
+	}
+	sa, err := syscall.Getsockname(fd)
+	if err != nil {
+		panic(err)
+	}
+	return fmt.Sprintf("127.0.0.1:%d", sa.(*syscall.SockaddrInet4).Port) // (the descriptor stays open until the process ends)
 }
